@@ -153,6 +153,26 @@ def gen_correspondence(rep: Report, rng, tier: str) -> Corr:
             return None if tu.chains_equal_exact(ms, S) else "factor entries differ"
         C.add("scale_factors", f"t.scale z {tu.enc_z(c)} {which} {tu.enc_chain(fs, 'z')}", cmp_scale)
 
+    # ---- MPS.__rmul__ / __imul__: which factor carries the scalar, as a function of the RECORDED centre
+    for i in range(8 * reps):
+        n, d = pick_nd()
+        fs = tu.rand_int_chain(rng, n, (d,), rng.choice([1, 2, 3, 4]), 3)
+        center = rng.choice([None, 0, n - 1, rng.randrange(n), rng.randrange(n)])
+        c = complex(rng.randint(-3, 3), rng.randint(-3, 3))
+        st = _mps(MPS, fs, d, center=center)
+        out = (c * st) if i % 2 == 0 else st.__imul__(c)
+        res, rc = [f.clone() for f in out.factors], out.orthogonality_center
+
+        def cmp_rmul(reply, res=res, rc=rc):
+            t = reply.split()
+            if t[0] != ("-" if rc is None else str(rc)):
+                return f"recorded centre of the result: model {t[0]} real {rc}"
+            ms, _ = tu.dec_chain(t[1:], "z")
+            return None if tu.chains_equal_exact(ms, res) else "factors differ (wrong factor scaled?)"
+        C.add("MPS.__rmul__", f"t.rmul z {tu.enc_z(c)} {'-' if center is None else center} {tu.enc_chain(fs, 'z')}", cmp_rmul,
+              sample={"op": "rmul", "n": n, "center": center})
+        rep.hist("rmul_center", "None" if center is None else ("0" if center == 0 else ">0"))
+
     # ---- amplitudes of the model vs the harness' dense expansion (validates the dense references)
     for i in range(5 * reps):
         n, d = pick_nd(6)
@@ -405,7 +425,8 @@ def gen_correspondence(rep: Report, rng, tier: str) -> Corr:
 
 
 # =============================================================================== oracle on the real code
-ORACLE_KINDS = ["add_scale", "inner_norm", "apply_expect", "mpo_algebra", "site_obs", "from_amps", "from_op", "corr_custom"]
+ORACLE_KINDS = ["add_scale", "inner_norm", "apply_expect", "mpo_algebra", "site_obs", "from_amps", "from_op", "corr_custom",
+                "recorded_centre"]
 
 
 def _close(x, ref, tol):
@@ -610,6 +631,90 @@ def oracle_case(kind: str, cs: int) -> list[tuple[str, dict, str | None]]:
         W, _ = MPO._from_operator_repr(eigenstates=eig, n_qudits=nn, operations=terms)
         if not _close(tu.dense_op(W.factors), ref, 1e-10 * max(1.0, float(ref.abs().max()))):
             bad("_from_operator_repr: dense ≠ Σ coeff·⊗ local operators (last assignment wins)")
+    elif kind == "recorded_centre":
+        # every public operation on states whose RECORDED centre sits at every site / is None (set the way the code sets
+        # it: orthogonalize(k), apply(k, ·), get_correlation_matrix()), then norm()/expect_batch/… of the result vs dense
+        n = min(n, 5)
+        info["n"] = n
+        ops = (torch.randn(2, d, d, dtype=torch.float64, generator=g) + 1j * torch.randn(2, d, d, dtype=torch.float64, generator=g)).to(tu.DT)
+        nop = torch.zeros(d, d, dtype=tu.DT)
+        nop[1, 1] = 1.0
+
+        def judge(x, v, what, ttol=0.0):
+            """x: MPS, v: the dense vector it must represent"""
+            sc = max(1.0, float(v.norm()))
+            tol = 1e-8 * sc + ttol
+            dv = tu.dense_state(x.factors)
+            if float((dv - v).norm()) > tol:
+                bad(f"{what}: dense(result) deviates by {float((dv - v).norm()):.3e}", what=what)
+                return
+            c0 = x.orthogonality_center
+            nr = float(x.norm())
+            if abs(nr - float(v.norm())) > tol:
+                bad(f"{what} (recorded centre {c0}): norm() = {nr!r}, dense norm {float(v.norm())!r}", what=what, centre=c0)
+            eb = x.expect_batch(ops)
+            for q in range(n):
+                ref = complex(torch.vdot(v, tu.apply_1site(v, ops[0], q, n)))
+                if abs(complex(eb[q, 0]) - ref) > 1e-7 * sc * sc * max(1.0, float(ops[0].abs().max())) + 4 * ttol * sc:
+                    bad(f"{what} (recorded centre {c0}): expect_batch[{q}] = {complex(eb[q, 0])} ≠ dense {ref}", what=what, centre=c0)
+                    break
+            z = complex(x.inner(x))
+            if abs(z - float(v.norm()) ** 2) > 1e-7 * sc * sc + 4 * ttol * sc:
+                bad(f"{what}: inner(x, x) = {z} ≠ ‖dense‖² = {float(v.norm()) ** 2}", what=what)
+            if abs(float(x.overlap(x)) - float(v.norm()) ** 4) > 1e-7 * sc ** 4 + 8 * ttol * sc ** 3:
+                bad(f"{what}: overlap(x, x) ≠ ‖dense‖⁴", what=what)
+            cm = x.get_correlation_matrix()
+            E = [tu.apply_1site(v, nop, q, n) for q in range(n)]
+            for i in range(n):
+                for j in range(n):
+                    if abs(complex(cm[i, j]) - complex(torch.vdot(E[i], E[j]))) > 1e-7 * sc * sc + 4 * ttol * sc:
+                        bad(f"{what} (recorded centre {c0}): get_correlation_matrix()[{i},{j}] ≠ dense", what=what, centre=c0)
+                        return
+            k = rng.randrange(n)
+            S = float(x.entanglement_entropy(k))
+            sv = torch.linalg.svdvals(v.reshape(d ** (k + 1), -1))
+            ref = float(torch.special.entr(sv ** 2).sum())
+            if abs(S - ref) > 1e-6 * max(1.0, abs(ref), sc * sc) + 50 * ttol * sc:
+                bad(f"{what}: entanglement_entropy({k}) = {S} ≠ dense {ref}", what=what)
+            # weights of the first multinomial call of sample(): marginal of site 0
+            seen = []
+
+            def spy(w, num_samples=1, **kw):
+                seen.append(w.detach().clone())
+                return torch.zeros(w.shape[0], 1, dtype=torch.int64)
+            with mock.patch("torch.multinomial", spy):
+                x.sample(num_shots=1)
+            marg = (v.abs() ** 2).reshape(d, -1).sum(dim=1)
+            if float((seen[0][0].real - marg).abs().max()) > 1e-7 * sc * sc + 4 * ttol * sc:
+                bad(f"{what} (recorded centre {c0}): sample() weights of site 0 {seen[0][0].tolist()} ≠ dense marginal {marg.tolist()}", what=what)
+
+        for kc in [None] + list(range(n)):
+            how = rng.choice(["orthogonalize", "apply", "corr"]) if kc is not None else "none"
+            a, fa = mk(dmax=6, center=None)
+            v = tu.dense_state(fa)
+            if how == "orthogonalize":
+                a.orthogonalize(kc)
+            elif how == "apply":
+                a.apply(kc, ops[1])
+                v = tu.apply_1site(v, ops[1], kc, n)
+            elif how == "corr":
+                a.get_correlation_matrix()          # leaves the centre on the last site
+            tag = f"centre set by {how}({kc})"
+            if how != "none" and a.orthogonality_center is None:
+                bad(f"{tag}: no centre recorded")
+            c = complex(rng.uniform(-2, 2), rng.uniform(-2, 2))
+            judge(c * a, c * v, f"c*state, {tag}")
+            judge(a, v, f"operand after c*state, {tag}")
+            a2 = _mps(MPS, [f.clone() for f in a.factors], d, center=a.orthogonality_center, precision=prec)
+            a2 *= c
+            judge(a2, c * v, f"state *= c, {tag}")
+            b, fb = mk(dmax=4)
+            judge(a + b, v + tu.dense_state(fb), f"state + other, {tag}", ttol=2 * (n - 1) * prec)
+            q = rng.randrange(n)
+            a.apply(q, ops[0])
+            judge(a, tu.apply_1site(v, ops[0], q, n), f"apply({q}) after {tag}")
+            if fails:
+                break
     elif kind == "corr_custom":
         # the two Lean witnesses (Props.C11.corr_*_counterexample) replayed on the real code
         A0 = torch.tensor([[[1.0], [1.0j]]], dtype=tu.DT)
@@ -709,7 +814,7 @@ def check(rep: Report, tier: str, seed: int) -> None:
         C = None
     if C is not None:
         C.run()
-    run_oracle(rep, rng, 80 if tier == "quick" else 2400)
+    run_oracle(rep, rng, 81 if tier == "quick" else 2430)
     if rep.broken and not any(f["class"] is None for f in rep.failing):
         search(rep, seed, 400 if tier == "quick" else 6000)
 
